@@ -275,9 +275,18 @@ class SimulationMaximumStep(SimulationWithJumpTimes):
             return jump_times, jump_values
 
         def _build_finer_grid(self, jump_times, jump_values):
+            # the maturity closes the time grid: it is added as a last point (which repeats the last value) so that
+            # the stretch after the last jump is refined as well, and it is removed again from the output
+            last_value = (
+                jump_values[..., -1:]
+                if jump_times.size
+                else np.zeros(np.shape(jump_values)[:-1] + (1,))
+            )
+            jump_times = np.append(jump_times, maturity)
+            jump_values = np.concatenate((jump_values, last_value), axis=-1)
             dts = np.diff(jump_times, prepend=0)
             if not any(dts > epsilon):
-                return jump_times, jump_values
+                return jump_times[:-1], jump_values[..., :-1]
 
             positions = np.flatnonzero(dts > epsilon)
             aug_dts = dts
@@ -294,7 +303,7 @@ class SimulationMaximumStep(SimulationWithJumpTimes):
                 positions = np.flatnonzero(aug_dts > epsilon)
             aug_jump_times = np.cumsum(aug_dts)
 
-            return aug_jump_times, aug_jump_values
+            return aug_jump_times[:-1], aug_jump_values[..., :-1]
 
         return _build_finer_grid_default if epsilon >= maturity else _build_finer_grid
 
@@ -307,8 +316,5 @@ class SimulationMaximumStep(SimulationWithJumpTimes):
 
     def simulate_jumps(self):
         jump_times, jump_values = super().simulate_jumps()
-
-        if jump_times.size == 0:
-            return jump_times, jump_values
 
         return self.build_finer_grid(jump_times, jump_values)
